@@ -34,6 +34,9 @@ R4 (K5 taint) for every class registered in request_handlers (each lazy registra
 Added while testing against seeded changes: R1c jail_info is threading.local(); R3b VfsRequest.translate_client_path
 re-validates the decoded path as a whole and segment by segment (a segment that decodes to '/', '.' or '..' is
 refused).
+R6 every function of controldir.py that probes with ControlDirFormat.find_format runs the pre_open hooks (the jail) first.
+R7 the userdir path filter is BzrServerFactory._expand_userdirs itself and no URL-decode happens in it or around it
+(third-round seeds).
 Does not decide: urlutils.joinpath / chroot transport semantics (dromedary). With the chroot in place an untranslated path
 is still confined; R4 is the documented first layer.
 """
@@ -287,7 +290,42 @@ def run(ctx):
     ctx.require(total_sinks >= 30, f"only {total_sinks} sinks found (hand-confirmed: about 40)")
 
 
+    # ---- R6: the jail hook sees every control directory that is probed -----------------------------------------------
+    # The request jail is a ControlDir 'pre_open' hook.  In controldir.py every function that probes a transport for a
+    # control directory (a call of ControlDirFormat.find_format, directly or in a nested helper) first runs
+    # `for hook in klass.hooks["pre_open"]: hook(transport)`: an opener without the hooks lets an upward search
+    # (open_containing_from_transport, find_repository ...) walk out of the jail.
+    CD = "breezy/controldir.py"
+    n_probe = 0
+    for q_, f_ in repo.module(CD).functions().items():
+        if q_.count(".") != 1 or q_.split(".")[-1] == "find_format":
+            continue
+        probes = [c for c in ast.walk(f_) if isinstance(c, ast.Call) and norm(c.func).endswith("ControlDirFormat.find_format")]
+        if not probes:
+            continue
+        n_probe += 1
+        hooks = [l_ for l_ in ast.walk(f_) if isinstance(l_, ast.For) and "hooks['pre_open']" in norm(l_.iter) and any(isinstance(c, ast.Call) and norm(c.func) == norm(l_.target) for c in ast.walk(l_))]
+        ok6 = bool(hooks) and min(h.lineno for h in hooks) < min(c.lineno for c in probes)
+        ctx.check("R6-probe-runs-pre-open-hooks", f"{CD}:{q_}", ok6, f"{q_} runs the pre_open hooks before probing for a control directory", construct=f"L{probes[0].lineno}:{norm(probes[0])[:60]}", message=f"{q_} probes a transport for a control directory without running the ControlDir pre_open hooks: the smart server's jail is one of them, so a search that goes through this function (open_containing_from_transport walking upwards, find_repository, initialize_ex ...) can open a control directory or shared repository above the served directory")
+    ctx.require(n_probe >= 1, f"{CD}: no function probing with ControlDirFormat.find_format found")
+    # ---- R7: the userdir filter does not decode the path a second time ----------------------------------------------
+    # VfsRequest.translate_client_path assumes exactly one more URL-decode happens below it (in the transport).  The
+    # filter given to PathFilteringServer is BzrServerFactory._expand_userdirs itself, and neither it nor the function
+    # that installs it calls an unescape.
+    pfs = [(q_, c) for q_, f_ in repo.module(SV).functions().items() for c in calls_in(f_) if norm(c.func).endswith("PathFilteringServer")]
+    ctx.require(len(pfs) >= 1, f"{SV}: PathFilteringServer(...) not found")
+    for q_, c in pfs:
+        filt = norm(c.args[1]) if len(c.args) > 1 else "?"
+        ctx.check("R7-userdir-filter-single-decode", f"{SV}:{q_}", filt == "self._expand_userdirs", "the path filter is self._expand_userdirs", construct=filt, message=f"PathFilteringServer is given `{filt}` instead of self._expand_userdirs: a wrapper around the userdir expansion can change the encoding level of the path below the point where it was validated")
+    for q_ in ("BzrServerFactory._expand_userdirs",) + tuple(sorted({q for q, _ in pfs})):
+        f_ = repo.func(SV, q_)
+        dec = [f"L{c.lineno}:{norm(c)[:50]}" for c in ast.walk(f_) if isinstance(c, ast.Call) and (norm(c.func).endswith("unescape") or norm(c.func).endswith("unquote") or norm(c.func).endswith("unquote_to_bytes"))]
+        ctx.check("R7-userdir-filter-single-decode", f"{SV}:{q_}", not dec, f"{q_} does not URL-decode the path", construct="; ".join(dec), message=f"{q_} URL-decodes the relative path ({dec}) before handing it on: a separator that was still double-encoded when the VFS layer validated the path (`~joe/..%252F..%252Fetc`) becomes `..%2F` here and `../` in the local transport — reads and writes leave the served directory")
+
+
 MUTANTS = [
+    Mutant("upward search probes parents without the pre_open hooks", "breezy/controldir.py", "        for hook in klass.hooks[\"pre_open\"]:\n            hook(transport)\n        # Keep initial base", "        # Keep initial base", expect="R6-probe-runs-pre-open-hooks"),
+    Mutant("userdir filter decodes the path once more", SV, "        return pathfilter.PathFilteringServer(transport, self._expand_userdirs)\n", "        return pathfilter.PathFilteringServer(transport, lambda p: self._expand_userdirs(urlutils.unescape(p)))\n", expect="R7-userdir-filter-single-decode"),
     Mutant("segments not re-checked after decoding", VF, "        for segment in result.split(\"/\"):\n            decoded = urlutils.unescape(segment)\n            if decoded != segment and (\"/\" in decoded or decoded in (\".\", \"..\")):\n                raise urlutils.InvalidURLJoin(\"Encoded path separator\", \"/\", result)\n", "", expect="R3b-decoded-path-revalidated"),
     Mutant("jail shared by all threads", RQ, "jail_info = threading.local()\n", "jail_info = type(\"JailInfo\", (), {})()\n", expect="R1-jail-per-thread"),
     Mutant("command code called directly", RQ, "        self._run_handler_code(self._command.do_end, (), {})\n        # cannot read after this.", "        self._command.do_end()\n        # cannot read after this.", expect="R1-commands-only-via-jail"),
